@@ -561,7 +561,7 @@ pub fn check_def(def: &Def, unroll: usize, case: &Value) -> (Vec<Violation>, Out
 }
 
 pub fn run(run: &Run) {
-    let max = run.tier.pick(3, 4);
+    let max = run.tier.pick(4, 5);
     let unroll = run.tier.pick(2, 3);
     let skels = enumerate(opts(max));
     run.set_rule(&format!(
